@@ -159,6 +159,9 @@ func c14ReverseTie(r *Report) {
 								r.Case("rev\x00"+p+"\x00"+variant+"\x00"+op, want >= 0)
 								if !ok && isASCIIBytes(h) {
 									tRef.Disagreements++
+									if tRef.Disagreements > 200 {
+										return
+									}
 									r.Violate(fmt.Sprintf("lazydfa.%s on %s of %q [%s] haystack %q start=%d end=%d: engine=%s reference=%d", what, variant, p, cf.name, h, start, end, real, want),
 										map[string]any{"pattern": p, "automaton": "nfa." + variant, "haystack_hex": hexOf(h), "start": start, "end": end, "engine": "lazydfa", "op": what,
 											"config": cf.name, "engine_answer": real, "reference": want}, false)
